@@ -367,6 +367,9 @@ BASE_TRUST = [
 
 def finish(ctx):
     """Write the evidence, print the verdict lines, return the exit code."""
+    if isinstance(ctx.cov.get("theorems"), dict):
+        # the list of proved theorems is what the audit saw in this run, never a hand-kept list
+        ctx.cov["proved"] = [n.split(".")[-1] for n, ax in ctx.cov["theorems"].items() if ax != "DOES-NOT-CHECK"]
     known = [k for k in load_known() if k.get("property") == ctx.pid and k.get("status") == "finding"]
     real = []
     printed = set()
